@@ -56,6 +56,15 @@ CHECKS = [
          note='Trusted: vf/oracles/mcb.py (bridge/block finder, exhaustive simple-cycle enumeration, GF(2) elimination). The '
               'recorded theta-type gap is excluded from the minimality clause by an independent structural predicate and counted.',
          technique='exhaustive small-graph enumeration + property-based ring assemblies against an independent minimum cycle basis oracle'),
+    dict(id='C07',
+         text='Generated (pattern, target) pairs - subgraphs cut from the target or another molecule as molecule or query with drawn '
+              'flags, 46 + 19 SMARTS incl. ring closures on cage-like targets, multi-component patterns, drawn scopes, both filter '
+              'settings - are compared with an exhaustive reference enumeration of all injective maps satisfying the four stated '
+              'clauses (set equality, no duplicates, one mapping per image set, scope restriction, operator agreement); '
+              'lazy_product is compared with itertools.product.',
+         note='Trusted: brute-force embedding enumerator (vf/oracles/iso.py) bounded to targets <= 24 / patterns <= 8 atoms; leaf '
+              'predicates are the library atom/bond __eq__ (their meaning is decided in C08).',
+         technique='differential property-based testing against an exhaustive reference enumerator'),
     dict(id='C18',
          text='Exhaustive enumeration of the finite domain (118 elements x all tabulated isotopes + unspecified x charge '
               '-4..+4 x radical): lookups against a literal standard table, table-key consistency, mass computability, '
